@@ -132,6 +132,22 @@ func mkOps[T evC](idx int) *TypeOps {
 	o.Has = func(w *World) bool { return eventbus.HasHandlers[T](w.Bus) }
 	o.Count = func(w *World) int { return eventbus.HandlerCount[T](w.Bus) }
 	o.Filt = func(w *World, fn int, kind int) eventbus.SubscribeOption {
+		if kind >= 10 {
+			// the same predicate declared over an interface type the event satisfies (WithFilter[any]): a filter
+			// for every event type the handler may ever be subscribed with - and just as binding
+			return eventbus.WithFilter(func(e any) bool {
+				ev, isT := e.(T)
+				if !isT {
+					return true
+				}
+				id := idOf(ev)
+				ok := filterAccepts(kind, id)
+				if w.OnFilter != nil {
+					w.OnFilter(idx, fn, id, ok)
+				}
+				return ok
+			})
+		}
 		return eventbus.WithFilter(func(e T) bool {
 			id := idOf(e)
 			ok := filterAccepts(kind, id)
@@ -146,7 +162,7 @@ func mkOps[T evC](idx int) *TypeOps {
 
 // Filter kinds (0 = no filter).
 func filterAccepts(kind, id int) bool {
-	switch kind {
+	switch kind % 10 { // kinds 11-14: the same rules, predicate declared over `any`
 	case 1:
 		return id%2 == 0
 	case 2:
